@@ -253,12 +253,25 @@ func Tokenize(s string) []string {
 		}
 		return tokens
 	case strings.HasPrefix(s, "/*"): // 普通块注释
-		masterHint := tokens[0]
-		if idx := strings.Index(s, "*/"); idx > 0 {
-			tokens = strings.FieldsFunc(s[idx+2:], IsSqlSep)
+		// strip every leading block comment (a driver may put its own comment in front of
+		// the hint: `/* trace */ /*master*/ select ...`) and remember a `/*master*/` hint
+		masterHint := ""
+		rest := s
+		for strings.HasPrefix(rest, "/*") && !strings.HasPrefix(rest, "/*!") {
+			idx := strings.Index(rest, "*/")
+			if idx <= 0 {
+				break
+			}
+			if strings.EqualFold(rest[:idx+2], "/*master*/") {
+				masterHint = rest[1 : idx+1]
+			}
+			rest = strings.TrimSpace(rest[idx+2:])
+		}
+		if len(rest) != len(s) {
+			tokens = strings.FieldsFunc(rest, IsSqlSep)
 		}
 		// 修改点：使用不区分大小写的比较
-		if strings.EqualFold(masterHint, "*master*") {
+		if masterHint != "" {
 			tokens = append(tokens, masterHint)
 		}
 	}
